@@ -137,11 +137,13 @@ CHECKS['C22'] = {
 # ---------------------------------------------------------------- C07
 def _c07():
     qs = []
-    def q(name, T, K, nops, cap, rot, dyn=0, ic=0, tiers=('quick', 'thorough'), timeout=900, U=3, sc=0, intr=0, cl=0, style='goto'):
+    def q(name, T, K, nops, cap, rot, dyn=0, ic=0, tiers=('quick', 'thorough'), timeout=900, U=3, sc=0, intr=0, cl=0, style='goto', fine=None):
         qs.append(Q(name, 'c07_vyukov.cpp', mode='coro', T=T, K=K, defs={'NOPS': nops, 'CAP': cap, 'ROTMAX': rot, 'DYNAMIC_BUFFER': dyn, 'ITEM_COUNTER': ic, 'VERIF_T': T,
                                                                        'SINGLE_CONSUMER': sc, 'INTRUSIVE': intr, 'CLEANER': cl},
-                    spin={'do_enq|do_deq': U}, unwind=max(U, cap) + 3, unwind_fn={'linearizable': 26 if T * nops <= 4 else 122}, timeout=timeout, tiers=tiers, validate=6, coro_style=style))
+                    spin={'do_enq|do_deq': U}, unwind=max(U, cap) + 3, unwind_fn={'linearizable': 26 if T * nops <= 4 else 122}, timeout=timeout, tiers=tiers, validate=6, coro_style=style, fine_fn=fine))
     q('vyukov_static_cap2_T2_n1_K4', 2, 4, 1, 2, 3)
+    q('vyukov_fine_cap2_T2_n1_K4', 2, 4, 1, 2, 3, fine='do_enq|do_deq|enqueue_with|dequeue_with')
+    q('vyukov_fine_cap2_T3_n1_K4', 3, 4, 1, 2, 2, fine='do_enq|do_deq|enqueue_with|dequeue_with')
     q('vyukov_dynamic_cap2_T2_n1_K4_ic', 2, 4, 1, 2, 1, dyn=1, ic=1)
     q('vyukov_static_cap2_T3_n1_K4', 3, 4, 1, 2, 2)
     q('vyukov_static_cap2_T2_n2_K4', 2, 4, 2, 2, 3, tiers=('thorough',), timeout=3000)
@@ -282,11 +284,12 @@ CHECKS['C09'] = {
 # ---------------------------------------------------------------- C06
 def _c06():
     qs = []
-    def q(name, kind, T, K, nops, pre=2, ic=0, tiers=('quick', 'thorough'), timeout=900, U=3, style='goto'):
+    def q(name, kind, T, K, nops, pre=2, ic=0, tiers=('quick', 'thorough'), timeout=900, U=3, style='goto', fine=None):
         qs.append(Q(name, 'c06_queue.cpp', mode='coro', T=T, K=K, defs={'QUEUE_KIND': kind, 'NOPS': nops, 'PREMAX': pre, 'ITEM_COUNTER': ic, 'VERIF_T': T, 'HP_ENV_THREADS': T},
                     spin={'do_enq|do_deq|enqueue_with|dequeue_with|do_dequeue': U}, unwind=max(U, pre + T * nops + 3), unwind_fn={'linearizable': 26 if T * nops <= 4 else 122}, timeout=timeout, tiers=tiers, validate=6,
-                    cxxflags=['-fno-access-control'], object_bits=12, coro_style=style, atomic_fn='hp_env_model_pass', abort_fn=HP_ABORT, mem_gb=(16 if 'quick' in tiers else 40)))
+                    cxxflags=['-fno-access-control'], object_bits=12, coro_style=style, atomic_fn='hp_env_model_pass', abort_fn=HP_ABORT, mem_gb=(16 if 'quick' in tiers else 40), fine_fn=fine))
     q('rwqueue_T2_n1_K4', 4, 2, 4, 1)
+    q('rwqueue_fine_T2_n1_K4', 4, 2, 4, 1, fine='do_enq|do_deq|enqueue_with|dequeue_with')
     q('rwqueue_T2_n1_K6', 4, 2, 6, 1)
     q('msqueue_T2_n1_K4', 0, 2, 4, 1, pre=1, U=2, tiers=('thorough',), timeout=3000)
     q('moirqueue_T2_n1_K4', 1, 2, 4, 1, pre=1, U=2, tiers=('thorough',), timeout=3000)
@@ -308,7 +311,7 @@ def _c11():
                     unwind=max(nops, heapsz, 8) + 3, timeout=timeout, tiers=tiers, validate=10))
     def co(name, mode, T, K, nops, heapsz=4, tiers=('quick', 'thorough'), timeout=900, U=4, style='goto'):
         qs.append(Q(name, 'c11_pqueue.cpp', mode='coro', T=T, K=K, defs={'Q_CORO': None, 'PQ_MODE': mode, 'HEAPSZ': heapsz, 'NOPS': nops, 'PRIOMAX': 3, 'VERIF_T': T},
-                    spin={'do_push|do_pop|spin_lock': 2}, unwind=max(U, heapsz, 8) + 2, unwind_fn={'linearizable': 26}, timeout=timeout, tiers=tiers, validate=6, coro_style=style))
+                    spin={'do_push|do_pop|spin_lock|MSPriorityQueue': 3}, unwind=max(U, heapsz, 8) + 2, unwind_fn={'linearizable': 26}, timeout=timeout, tiers=tiers, validate=6, coro_style=style))
     seq('mspq_seq_cap3_n5', 4, 5)
     seq('mspq_seq_cap1_n6', 2, 6)
     co('mspq_push_push_T2_n1_K4', 0, 2, 4, 1, tiers=('thorough',), timeout=3000)
@@ -327,23 +330,23 @@ CHECKS['C11'] = {
 # ---------------------------------------------------------------- C04 / C05
 def _c04():
     qs = []
-    def q(name, kind, T, K, nupd=1, nread=1, bufcap=2, third_reader=0, tiers=('quick', 'thorough'), timeout=900, U=3, style='goto', opt='O1'):
+    def q(name, kind, T, K, nupd=1, nread=1, bufcap=2, third_reader=0, tiers=('quick', 'thorough'), timeout=900, U=3, style='goto', opt='O1', nested2=0):
         qs.append(Q(name, 'c04_rcu.cpp', srcs=['thread_data.cpp', 'urcu_gp.cpp', 'urcu_sh.cpp', 'init.cpp', 'hp.cpp', 'dhp.cpp', 'hp_thread_local.cpp'], mode='coro', T=T, K=K, opt=opt,
-                    defs={'RCU_KIND': kind, 'NUPD': nupd, 'NREAD': nread, 'BUFCAP': bufcap, 'THIRD_IS_READER': third_reader, 'VERIF_T': T, 'CDS_THREADING_CXX11': None},
+                    defs={'RCU_KIND': kind, 'NUPD': nupd, 'NREAD': nread, 'BUFCAP': bufcap, 'THIRD_IS_READER': third_reader, 'VERIF_T': T, 'CDS_THREADING_CXX11': None, 'NESTED2': nested2},
                     spin={'flip_and_wait|do_sync|do_retire|synchronize|spin_lock': U}, unwind=max(U, T + 2, nupd * T + 2, bufcap + 2) + 1, timeout=timeout, tiers=tiers, validate=6,
                     object_bits=12, coro_style=style, atomic_fn=('clear_buffer' if kind == 1 else None)))
     q('gpi_reader_vs_updater_T2_K4', 0, 2, 4)
+    q('gpi_nested2_reader_vs_updater_T2_K6', 0, 2, 6, nested2=1)
     q('gpi_reader_vs_updater_T2_K4_u2r1', 0, 2, 4, nupd=2, nread=1)
     q('gpi_reader_vs_updater_T2_K5_u2r1', 0, 2, 5, nupd=2, nread=1, tiers=('thorough',), timeout=3000)
     q('gpi_reader_vs_updater_T2_K6_u2r2', 0, 2, 6, nupd=2, nread=2, tiers=('thorough',), timeout=3000)
     q('gpi_2readers_vs_updater_T3_K5', 0, 3, 5, third_reader=1)
     q('gpi_reader_vs_2updaters_T3_K5', 0, 3, 5, tiers=('thorough',), timeout=3000)
     q('gpi_reader_vs_2updaters_T3_K4', 0, 3, 4)
-    q('gpb_reader_vs_updater_T2_K4_cap1', 1, 2, 4, bufcap=1, tiers=('thorough',), timeout=3000)
     return qs
 CHECKS['C04'] = {
     'queries': _c04(), 'level': 'model_checking',
-    'outside': ['general_threaded (disposer thread, condition variables) and signal_buffered (signal handlers) are not encoded; raw_ptr / exempt_ptr of the RCU containers',
+    'outside': ['general_buffered: the harness supports it (RCU_KIND=1) but its smallest query (2 threads, buffer capacity 1, recursive synchronize -> clear_buffer -> push_buffer) gave no verdict in 50 min, so it is NOT claimed; general_threaded (disposer thread, condition variables) and signal_buffered (signal handlers) are not encoded; raw_ptr / exempt_ptr of the RCU containers',
                 'more than 3 threads, 2 updates or reads per thread, nesting deeper than 2; schedules with more than K-1 context switches; sequential consistency only (the seq_cst fences of access_lock/flip_and_wait are context-switch points, their ordering effect beyond SC is not modelled)',
                 'liveness: a synchronize() that waits forever is cut by assume after U polling rounds',
                 'general_buffered::clear_buffer() (disposal of the buffered pointers after the grace period; recursive through push_buffer -> synchronize) runs without preemption'],
